@@ -9,7 +9,7 @@
 """
 import ast
 
-from ..core.source import norm, dotted, is_self_attr, const_value
+from ..core.source import norm, dotted, is_self_attr, const_value, AnalysisError
 from ..core.cfg import cfg_of
 from ..core.dataflow import dataflow_of
 from ..rules import step as S
@@ -35,6 +35,118 @@ def check(repo, res, tier):
     res.floor("walk scenarios interpreted", n, 15)
     # the limits handed to the steppers are the declared ones: _add_list_attr_with_limits interpreted on every declaration form
     _check_defaults(repo, res)
+    _check_alignment(repo, res)
+
+
+def _expand(name):
+    """the state names a declaration stands for (sympy's range syntax: 'y1:4' -> y1 y2 y3)"""
+    import re as _re
+    m = _re.match(r"^([A-Za-z]\w*?)(\d+):(\d+)$", name)
+    if m:
+        return ["%s%d" % (m.group(1), i) for i in range(int(m.group(2)), int(m.group(3)))]
+    return [name]
+
+
+def _run_decl(repo, decl, late=None):
+    """interpret the constructor's declaration routine on `decl` (then `state_list = late`) with the real state_list setter;
+    -> (kind, out, [(state name, limits) ...]) ; symbol parsing is replaced by its contract (range syntax expands)"""
+    import re as _re
+    from ..core.absint import Abs, Obj, Tok, Raised
+    cls = M.sim_class(repo)
+    f = repo.func(M.M_BASE, "BaseOdeModel._add_list_attr_with_limits")
+    setter = repo.resolve_setter(cls, "state_list")
+    if setter is None:
+        raise AnalysisError("state_list setter vanished")
+    me = Obj("Model", _stateList=[], _paramList=[], _stateDict={}, _paramDict={}, _vectorStateDict={})
+    me.attrs["_hasNewTransition"] = Obj("Canary")
+    types = {"ODEVariable": lambda v: isinstance(v, Obj) and v.cls == "ODEVariable", "sympy.Symbol": lambda v: isinstance(v, Tok)}
+
+    def add_symbol(me_, s_):
+        names = _expand(s_)
+        return Tok(names[0], "sym") if names == [s_] else [Tok(x, "sym") for x in names]
+
+    def mk_var(ID, name=None, *a, **k):
+        return Obj("ODEVariable", ID=ID, name=name if name is not None else ID, __str__=ID)
+    summ = {"Model._addSymbol": add_symbol, "ODEVariable": mk_var, "Canary.trip": lambda c: None,
+            "str": lambda v: v.label if isinstance(v, Tok) else (v.attrs.get("ID") if isinstance(v, Obj) and v.cls == "ODEVariable" else str(v))}
+    base = repo.module(M.M_BASE)
+    for st in base.tree.body:
+        if isinstance(st, ast.Assign) and isinstance(st.targets[0], ast.Name) and st.targets[0].id == "re_split_string" \
+                and isinstance(st.value, ast.Call) and dotted(st.value.func) == "re.compile":
+            rx = _re.compile(const_value(st.value.args[0]))
+            summ["re_split_string.split"] = lambda x, rx=rx: rx.split(x)
+
+    def fresh():
+        ab = Abs({}, types, summ, me, {"state_list": lambda m: m.attrs["_stateList"]})
+        ab.class_methods = set(repo.all_methods(cls))
+        ab.self_class = (repo, cls)
+        ab.module = f.module
+        return ab
+
+    def run_setter(me_, value):
+        kind, out = fresh().run_function(setter.node, {setter.params[1]: value})
+        if kind != "return":
+            raise Raised(str(out))
+
+    def set_attr(me_, name, value):
+        if name == "state_list":
+            run_setter(me_, value)
+        else:
+            me_.attrs[name] = value
+    summ["Model.__setattr__"] = set_attr
+    summ["set:Model.state_list"] = run_setter
+    try:
+        kind, out = fresh().run_function(f.node, {f.params[1]: decl, f.params[2]: "state_list"})
+        if kind == "return" and late is not None:
+            run_setter(me, late)
+    except Raised as r:
+        kind, out = "raise", r.exc
+    names = [v.attrs.get("ID") if isinstance(v, Obj) else str(v) for v in me.attrs["_stateList"]]
+    lims = [tuple(l) if isinstance(l, (list, tuple)) else l for l in (me.attrs.get("_state_lims") or [])]
+    got = list(zip(names, lims)) + [(x, "no limit at all") for x in names[len(lims):]] + [("(no state)", l) for l in lims[len(names):]]
+    return kind, out, got
+
+
+def _check_alignment(repo, res):
+    """declaration -> constructor routine -> real state_list setter: every state, also one a range-style name expands to and one
+    added after construction, has its own declaration's limits at its own index"""
+    import re as _re
+    from ..core.algebra import Undecided
+    f = repo.func(M.M_BASE, "BaseOdeModel._add_list_attr_with_limits")
+    D = (0, None)
+    cases = [
+        ("plain", [("a", (1, 5)), "b", ("c", (None, 7))], None),
+        ("range-style name first", ["y1:3", ("b", (0, 5))], None),
+        ("range-style name with limits", [("y1:4", (2, 9)), "b"], None),
+        ("range-style name in the middle", [("a", (1, 5)), "y1:3", ("c", (None, 7))], None),
+        ("range-style string", "y1:4", None),
+        ("state added later", [("a", (1, 5)), ("b", (None, 7))], ["r"]),
+        ("states added later as a string", [("a", (1, 5))], "r"),
+        ("range-style states added later", [("a", (1, 5)), "b"], ["z1:3"]),
+        ("added later to a range-style model", ["y1:3", ("b", (0, 5))], ["r", "q"]),
+    ]
+    problems, n = [], 0
+    for label, decl, late in cases:
+        try:
+            kind, out, got = _run_decl(repo, decl, late)
+        except Undecided as e:
+            res.undecided("R-DEFAULT", f, "limits-follow-states", "outside the modelled subset: %s" % e)
+            return
+        n += 1
+        if kind != "return":
+            problems.append("%s: declaration %r is rejected (%s)" % (label, decl, out))
+            continue
+        want = []
+        for it in (_re.split(r"[\s,]+", decl) if isinstance(decl, str) else decl):
+            nm, lim = (it, D) if isinstance(it, str) else it
+            want += [(x, lim) for x in _expand(nm)]
+        for it in ([] if late is None else [late] if isinstance(late, str) else late):
+            want += [(x, D) for x in _expand(it)]
+        if got != want:
+            problems.append("%s: declaration %r%s gives (state, limits) %r, expected %r" % (label, decl, "" if late is None else " then state_list = %r" % (late,), got, want))
+    res.check(not problems, "R-DEFAULT", f, "limits-follow-states", "%d model histories (range-style names, states added after construction): the limit list handed to the steppers has one entry per state, "
+              "each state's own declared limits at its own index, (0, None) where none is declared" % n, "; ".join(problems[:2]), node=f.node)
+    res.floor("limit alignment histories", n, 9)
 
 
 def _check_defaults(repo, res):
@@ -64,38 +176,28 @@ def _check_defaults(repo, res):
     ]
     bad_cases = [("triple", [("a", 1, 2)]), ("limits not a tuple", [("a", [0, 1])]), ("limits of length 3", [("a", (0, 1, 2))]),
                  ("empty name", ["a", " "]), ("unnamed tuple", [("", (0, 1))]), ("number", ["a", 3])]
-    types = {"ODEVariable": lambda v: isinstance(v, Obj) and v.cls == "ODEVariable"}
     problems, n = [], 0
     for label, decl, want_names, want_lims in ok_cases:
-        me = Obj("Model")
-        summ = {"Model.__setattr__": lambda me_, n_, v: me_.attrs.__setitem__(n_, v)}
-        if rx is not None:
-            summ["re_split_string.split"] = lambda x: rx.split(x)
         try:
-            ab = Abs({}, types, summ, me)
-            ab.module = f.module
-            kind, out = ab.run_function(f.node, {f.params[1]: decl, f.params[2]: "names"})
+            kind, out, got = _run_decl(repo, decl)
         except Undecided as e:
             res.undecided("R-DEFAULT", f, "declarations", "outside the modelled subset: %s" % e)
             return
         n += 1
-        names, lims = me.attrs.get("names"), me.attrs.get("_state_lims")
+        want = list(zip([w if isinstance(w, str) else "v" for w in want_names], want_lims))
         if kind != "return":
             problems.append("%s declaration %r is rejected (%s)" % (label, decl, out))
-        elif list(names or []) != want_names or [tuple(l) if isinstance(l, (list, tuple)) else l for l in (lims or [])] != want_lims:
-            problems.append("%s declaration %r gives states %r with limits %r, expected %r with %r" % (label, decl, names, lims, want_names, want_lims))
+        elif got != want:
+            problems.append("%s declaration %r gives (state, limits) %r, expected %r" % (label, decl, got, want))
     for label, decl in bad_cases:
-        me = Obj("Model")
         try:
-            ab = Abs({}, types, {"Model.__setattr__": lambda me_, n_, v: me_.attrs.__setitem__(n_, v)}, me)
-            ab.module = f.module
-            kind, out = ab.run_function(f.node, {f.params[1]: decl, f.params[2]: "names"})
+            kind, out, got = _run_decl(repo, decl)
         except Undecided as e:
             res.undecided("R-DEFAULT", f, "declarations", "outside the modelled subset: %s" % e)
             return
         n += 1
         if kind != "raise":
-            problems.append("malformed declaration (%s) %r is accepted with limits %r" % (label, decl, me.attrs.get("_state_lims")))
+            problems.append("malformed declaration (%s) %r is accepted: (state, limits) %r" % (label, decl, got))
     res.check(not problems, "R-DEFAULT", f, "declarations", "%d declaration forms: one limit pair per state in the state's own position, (0, None) where none is declared, malformed entries rejected" % n,
               "; ".join(problems[:2]), node=f.node)
     res.floor("limit declaration forms", n, 15)
